@@ -221,14 +221,14 @@ class Env:
         os.makedirs(os.path.join(self.base, 'store'))
         self.logfile = os.path.join(self.base, 'fetch.log')
         open(self.logfile, 'w').close()
-        self.releases = releases
+        self.releases = [list(r) for r in releases]        # private copy: a history may publish further releases
         self.relative = relative
         if relative:
             os.chdir(self.base)
             self.store_dir = 'store'
         else:
             self.store_dir = os.path.join(self.base, 'store')
-        self.store = OntologyStore(self.store_dir, Releases(releases), Remote(releases, self.logfile))
+        self.store = OntologyStore(self.store_dir, Releases(self.releases), Remote(self.releases, self.logfile))
 
     def abs_store(self):
         return os.path.join(self.base, 'store')
@@ -318,6 +318,10 @@ def run_history(payload, case, idx):
                         direct.append(f'clear of one type left its files behind: {left}')
                     if gone:
                         direct.append(f'clear of one type removed or changed files of other types: {gone}')
+            elif k == 'publish':
+                # the remote publishes a further release of this type (the release service and the remote share env.releases)
+                if op[2] not in env.releases[op[1]]:
+                    env.releases[op[1]].append(op[2])
             elif k == 'resolve':
                 try:
                     p = env.store.resolve_store_path(TYPES[op[1]], op[2])
